@@ -227,7 +227,7 @@ func (m *MmsTables) SetTier(tier uint64) {
 }
 
 func (m *MmsTables) GetFileSeq() uint64 {
-	return m.fileSeq
+	return atomic.LoadUint64(&m.fileSeq)
 }
 
 func (m *MmsTables) disableCompAndMerge() {
